@@ -273,9 +273,9 @@ pub fn def() -> CheckDef {
         rule: "(1) proptest: Unicode strings of byte length k*254+d and k*255+d (k 0..5, d -6..6) and others up to 1600, over {ASCII, ';', '=', 2/3/4-byte characters, U+013B, U+013D, U+FF1B, U+FF1D, NUL}: String::try_from(TXT::try_from(s)) == s, every piece <= 255 bytes, the serialised record walks (reference walker) into pieces whose concatenation is s and the library re-parses exactly those pieces. (2) attribute lists (keys non-empty without '=', values absent / empty / non-empty, unusual characters, entries around 255 bytes, duplicate keys): TXT::try_from(map).attributes() == map (None vs Some(\"\") kept), string lists with duplicates give the first-occurrence map, entries > 255 bytes refused. (3) attribute strings over {k,v,x,';','=',U+013B,U+013D,U+FF1B,U+FF1D,U+023B,U+103D,...}: long_attributes() equals a reference splitter working on chars. (4) exhaustive: lengths 0..=300 x 4 fill bytes for CharacterString::new / try_from(&str) / try_from(String) / TXT::add_string / with_string: Ok iff <= 255, content intact on the wire, nothing left behind when refused. Non-trivial = multi-piece text with a character across a chunk boundary or a look-alike character / map with >= 2 entries incl. an empty value / look-alike present / length 250..=260",
         assumptions: vec!["the empty key is not generated (RFC 6763 6.4: ignored); an empty map is not sent over the wire here (C15 owns that)"],
         sections: vec![
-            Box::new(PropSection { name: "text", rule: "split / join", strategy: text_strategy, cases: (30_000, 600_000), check: check_text }),
-            Box::new(PropSection { name: "attributes", rule: "attribute maps", strategy: attr_strategy, cases: (30_000, 600_000), check: check_attrs }),
-            Box::new(PropSection { name: "long-attributes", rule: "semicolon separated attribute strings", strategy: long_strategy, cases: (30_000, 600_000), check: check_long }),
+            Box::new(PropSection { name: "text", rule: "split / join", strategy: text_strategy, cases: (200_000, 2_000_000), check: check_text }),
+            Box::new(PropSection { name: "attributes", rule: "attribute maps", strategy: attr_strategy, cases: (200_000, 2_000_000), check: check_attrs }),
+            Box::new(PropSection { name: "long-attributes", rule: "semicolon separated attribute strings", strategy: long_strategy, cases: (200_000, 2_000_000), check: check_long }),
             Box::new(EnumSection { name: "lengths", rule: "construction limits", enumerate: enum_lengths, check: check_length, exhaustive: true }),
         ],
     }
